@@ -383,9 +383,8 @@ def run_vh(binary, sub, records, timeout=1800, env=None, args=None, jobs=1):
     """Feed NDJSON records to `vh <sub>` on stdin (split over `jobs` processes), return the list
     of result objects; the last element is {"summary": {...}} with numeric fields summed.
     Record indices `i` reported by the harness are rebased to the caller's list."""
-    if jobs <= 1 or len(records) < 2 * jobs:
-        return _run_vh_one(binary, sub, records, timeout, env, args)
     from concurrent.futures import ThreadPoolExecutor
+    jobs = max(1, min(jobs, len(records)))
     n = (len(records) + jobs - 1) // jobs
     parts = [(k, records[k:k + n]) for k in range(0, len(records), n)]
     with ThreadPoolExecutor(max_workers=jobs) as ex:
